@@ -171,7 +171,10 @@ def kani(P, u, prop):
         u.kani_harness.append("""
 #[kani::proof]
 pub fn pcmp_h() { let a = oracle::mk(&mut KaniSrc); let b = oracle::mk(&mut KaniSrc); let r = PartialOrd::partial_cmp(&a, &b); assert!(r == oracle::ord(&a, &b), "contract: partial_cmp(a, b) == oracle::ord(a, b)"); kani::cover!(true); }
+#[kani::proof]
+pub fn pcmp_alias_h() { let a = oracle::mk(&mut KaniSrc); let r = PartialOrd::partial_cmp(&a, &a); assert!(r == oracle::ord(&a, &a), "contract: partial_cmp(a, a) through the same reference == oracle::ord(a, a)"); kani::cover!(true); }
 """)
+        u.kani_obls["pcmp_alias_h"] = ("%s/%s/PartialOrd::partial_cmp/contract(aliased operands)" % (tagp, P.pid), "partial_cmp(&a, &a) == oracle::ord(a, a): the result depends on the values only, not on whether the operands alias")
         if P.tags.get("neighbours"):
             u.kani_harness.append("""
 #[repr(C)]
@@ -188,12 +191,19 @@ pub fn pcmp_nb_h() {
             u.kani_obls["pcmp_nb_h"] = ("%s/%s/PartialOrd::partial_cmp/neighbour-bytes" % (tagp, P.pid), "partial_cmp(&w1.e, &w2.e) == oracle::ord for all neighbour bytes")
         u.kani_obls["pcmp_h"] = ("%s/%s/PartialOrd::partial_cmp/contract" % (tagp, P.pid), "partial_cmp(a, b) == oracle::ord(a, b)")
         u.replay.append('let a = oracle::mk(s); let b = oracle::mk(s);\n'
+                        '    chk(out, "a.partial_cmp(&a)", a.partial_cmp(&a), oracle::ord(&a, &a));\n'
                         '    chk(out, "a.partial_cmp(&b)", a.partial_cmp(&b), oracle::ord(&a, &b));\n'
                         '    chk(out, "a < b", a < b, oracle::ord(&a, &b) == Some(Ordering::Less));')
     else:
         u.kani_harness.append("""
 #[kani::proof]
 pub fn cmp_h() { let a = oracle::mk(&mut KaniSrc); let b = oracle::mk(&mut KaniSrc); let r = Ord::cmp(&a, &b); assert!(r == oracle::ord(&a, &b), "contract: cmp(a, b) == oracle::ord(a, b)"); kani::cover!(true); }
+#[kani::proof]
+pub fn cmp_alias_h() { let a = oracle::mk(&mut KaniSrc); let r = Ord::cmp(&a, &a); assert!(r == oracle::ord(&a, &a), "contract: cmp(a, a) through the same reference == oracle::ord(a, a)"); kani::cover!(true); }
+""")
+        u.kani_obls["cmp_alias_h"] = ("%s/%s/Ord::cmp/contract(aliased operands)" % (tagp, P.pid), "cmp(&a, &a) == oracle::ord(a, a)")
+        if md != "ord_only":
+            u.kani_harness.append("""
 #[kani::proof]
 pub fn pcmp_h() { let a = oracle::mk(&mut KaniSrc); let b = oracle::mk(&mut KaniSrc); let r = PartialOrd::partial_cmp(&a, &b); assert!(r == Some(oracle::ord(&a, &b)), "contract: partial_cmp(a, b) == Some(oracle::ord(a, b))"); kani::cover!(true); }
 """)
@@ -212,7 +222,9 @@ pub fn cmp_nb_h() {
 """)
             u.kani_obls["cmp_nb_h"] = ("%s/%s/Ord::cmp/neighbour-bytes" % (tagp, P.pid), "cmp(&w1.e, &w2.e) == oracle::ord for all neighbour bytes in a #[repr(C)] wrapper")
         u.kani_obls["cmp_h"] = ("%s/%s/Ord::cmp/contract" % (tagp, P.pid), "cmp(a, b) == oracle::ord(a, b)")
-        u.kani_obls["pcmp_h"] = ("%s/%s/PartialOrd::partial_cmp/contract" % (tagp, P.pid), "partial_cmp(a, b) == Some(oracle::ord(a, b))")
+        if md != "ord_only":
+            u.kani_obls["pcmp_h"] = ("%s/%s/PartialOrd::partial_cmp/contract" % (tagp, P.pid), "partial_cmp(a, b) == Some(oracle::ord(a, b))")
         u.replay.append('let a = oracle::mk(s); let b = oracle::mk(s);\n'
                         '    chk(out, "a.cmp(&b)", a.cmp(&b), oracle::ord(&a, &b));\n'
-                        '    chk(out, "a.partial_cmp(&b)", a.partial_cmp(&b), Some(oracle::ord(&a, &b)));')
+                        '    chk(out, "a.cmp(&a)", a.cmp(&a), oracle::ord(&a, &a));' + ('' if md == "ord_only" else
+                        '\n    chk(out, "a.partial_cmp(&b)", a.partial_cmp(&b), Some(oracle::ord(&a, &b)));'))
